@@ -995,12 +995,14 @@ func (g *ReferencesAndLatLngs) UnmarshalWithoutLength(l int, primary TypeAndName
 	last := ReferenceAndLatLng{Reference: Reference{Value: 0}, LatLng: LatLng{LatE7: 0, LngE7: 0}}
 	for j := range *g {
 		if references[j] {
+			(*g)[j].LatLng = LatLng{}
 			i += (*g)[j].Reference.Unmarshal(primary, buffer[i:])
 			if (*g)[j].Reference.TypeAndNamespace == primary {
 				(*g)[j].Reference.Value = uint64(int64(last.Reference.Value) + encoding.ZigzagDecode((*g)[j].Reference.Value))
 				last.Reference.Value = (*g)[j].Reference.Value
 			}
 		} else {
+			(*g)[j].Reference = ReferenceInvald
 			deltaLat, n := binary.Varint(buffer[i:])
 			i += n
 			deltaLng, n := binary.Varint(buffer[i:])
@@ -1428,8 +1430,10 @@ func (a *AreaGeometryMixed) UnmarshalWithoutLength(l int, paths TypeAndNamespace
 	i := references.Unmarshal(buffer)
 	for j := range a.Polygons {
 		if references[j] {
+			a.Polygons[j].LatLngs = PolygonGeometryLatLngs{}
 			i += a.Polygons[j].References.Unmarshal(paths, buffer[i:])
 		} else {
+			a.Polygons[j].References.Paths = a.Polygons[j].References.Paths[0:0]
 			i += a.Polygons[j].LatLngs.Unmarshal(buffer[i:])
 		}
 	}
